@@ -25,7 +25,7 @@ PROPS = {
                 "EnforceAlreadyComputed on closed and unclosed inputs, AssumeAlreadyComputed only as last op) over a pool of 4-8 uids: random DAGs, "
                 "diamonds, dangling parents, cycles of length 1-5, identical and conflicting duplicates inside one batch, alternative paths around a "
                 "removed/replaced node, several nodes of one chain replaced/removed in one batch; plus exhaustively every parent graph on <=3 uids "
-                "(each uid absent or present with any parent subset, 729 graphs) x every single add/upsert/remove (thorough: strided 2-op histories "
+                "(each uid absent or present with any parent subset, 729 graphs) x every single add/upsert/remove (thorough: half of all 2-op histories "
                 "on 3 uids and single ops on 4 uids); after each op: ok/error kind, every record's sorted parents and ancestors (model vs impl), and on "
                 "the implementation alone ancestors / is_descendant_of / `e in a` via the evaluator / is_ancestor_of / `principal in X` via "
                 "is_authorized on all pairs against a reachability oracle over a harness-maintained spec parent graph, rejected <=> cyclic or "
